@@ -3,6 +3,7 @@ package props
 import (
 	"bytes"
 	"fmt"
+	"math"
 
 	"seehuhn.de/go/sfnt"
 	"seehuhn.de/go/sfnt/cff"
@@ -13,6 +14,7 @@ import (
 	"verif/harness/internal/mon"
 	"verif/harness/internal/ref/glyfref"
 	"verif/harness/internal/ref/sfntwalk"
+	"verif/harness/internal/ref/tabread"
 	"verif/harness/internal/ref/ximg"
 )
 
@@ -182,6 +184,71 @@ func ximageCompare(k *mon.Case, f *sfnt.Font, info *fontgen.Info, out []byte, de
 				}
 			}
 			k.Class("ximage:cmap-compared")
+		}
+	}
+	// vertical metrics, post header and name strings as x/image reads them
+	// from hhea, OS/2, post and name
+	{
+		upm := float64(f.UnitsPerEm)
+		fits := func(vs ...float64) bool {
+			for _, v := range vs {
+				if v*upm*64 >= 1<<30 || v*upm*64 <= -(1<<30) {
+					return false
+				}
+			}
+			return true
+		}
+		asc, desc, gap := float64(f.Ascent), float64(f.Descent), float64(f.LineGap)
+		if fits(asc, desc, gap, asc-desc+gap, float64(f.XHeight), float64(f.CapHeight)) {
+			a, d, h, xh, ch, err := xf.VMetrics()
+			k.Eval()
+			switch {
+			case err != nil:
+				k.Skip("ximage:metrics-error")
+			case a != int(f.Ascent) || d != -int(f.Descent) || h != int(f.Ascent)-int(f.Descent)+int(f.LineGap):
+				k.Fail("mismatch", "ximage:vertical-metrics", "x/image reads ascent %d descent %d height %d from hhea, the font has ascent %d descent %d line gap %d (%s)", a, d, h, f.Ascent, f.Descent, f.LineGap, desc)
+			case f.XHeight > 0 && xh != int(f.XHeight) || f.CapHeight > 0 && ch != int(f.CapHeight):
+				k.Fail("mismatch", "ximage:heights", "x/image reads x height %d cap height %d from OS/2, the font has %d and %d (%s)", xh, ch, f.XHeight, f.CapHeight, desc)
+			default:
+				k.Class("ximage:vertical-metrics-compared")
+			}
+		}
+		if pt := xf.Post(); pt != nil {
+			k.Eval()
+			wantAngle := math.Round(f.ItalicAngle*65536) / 65536
+			if pt.ItalicAngle != wantAngle || float64(pt.UnderlinePosition) != math.Round(float64(f.UnderlinePosition)) ||
+				float64(pt.UnderlineThickness) != math.Round(float64(f.UnderlineThickness)) || pt.IsFixedPitch != f.IsFixedPitch() {
+				k.Fail("mismatch", "ximage:post-header", "x/image reads post header %+v, the font has italic angle %v underline %v/%v fixed pitch %v (%s)", *pt, f.ItalicAngle, f.UnderlinePosition, f.UnderlineThickness, f.IsFixedPitch(), desc)
+			} else {
+				k.Class("ximage:post-header-compared")
+			}
+		}
+		for _, nm := range []struct {
+			id   int
+			want string
+		}{{0, f.Copyright}, {1, f.FamilyName}, {7, f.Trademark}, {10, f.Description}, {13, f.License}, {14, f.LicenseURL}, {19, f.SampleText}} {
+			// the first record is the Macintosh one: only strings of the Mac
+			// Roman repertoire are stored there without loss
+			roman := true
+			for _, ch := range nm.want {
+				if _, ok := tabread.MacRomanByte(ch); !ok {
+					roman = false
+				}
+			}
+			if !roman {
+				continue
+			}
+			got, found, err := xf.Name(nm.id)
+			k.Eval()
+			if err != nil {
+				k.Skip("ximage:name-error")
+				continue
+			}
+			if found != (nm.want != "") || got != nm.want {
+				k.Fail("mismatch", "ximage:name-string", "x/image reads name id %d as %q (found=%v), the font has %q (%s)", nm.id, got, found, nm.want, desc)
+				break
+			}
+			k.Class("ximage:name-strings-compared")
 		}
 	}
 	// advances, names, outlines
@@ -382,6 +449,7 @@ func c03fonts(c *mon.Ctx) {
 			k.Sample(desc + fmt.Sprintf(" file=%d bytes", len(out)))
 		}
 	})
+	c.Require("ximage:vertical-metrics-compared", "ximage:post-header-compared", "ximage:name-strings-compared")
 	c.Require("writer:Write:glyf", "writer:Write:cff", "writer:Write:cid", "writer:WriteTrueTypePDF", "writer:WriteTrueTypePDF:extra-tables", "writer:WriteOpenTypeCFFPDF",
 		"ximage:cmap-compared", "ximage:simple-outline-compared", "ximage:composite-outline-compared", "ximage:cff-outline-compared", "ximage:name-compared")
 }
